@@ -1,6 +1,8 @@
 from vcheck.runner import S, X, shards
 
 ENGINE = "crosshair-z3+pyz3"
+TECHNIQUE = ("Engine S: forking symbolic execution of every value decoder's own AST over near-grammar shape strings with symbolic digits (z3): no path raises anything but ValueError; "
+             "CrossHair/z3: path-exhaustive execution of Component.from_ical on structured hostile inputs under both providers; counterexamples replayed concretely")
 FUNCTIONS = ["icalendar.cal.Component.from_ical (error routing)", "icalendar.cal.Component.to_ical/walk", "icalendar.prop.vPeriod.__init__",
              "icalendar.timezone.tzp.TZP.timezone/cache_timezone_component", "icalendar.timezone.zoneinfo.ZONEINFO.timezone",
              "icalendar.timezone.pytz.PYTZ.timezone/create_timezone", "icalendar.cal.Timezone.to_tz/get_transitions/_extract_offsets"]
